@@ -106,11 +106,6 @@ impl SearchSpace {
         self.intersection = Subset::intersection(self.intersection.clone(), subset);
     }
 
-    fn include_matches(&mut self, utxos: HashSet<UtxoRef>) {
-        let matches = Subset::Specific(utxos);
-        self.include_subset(matches);
-    }
-
     fn include_address_matches(&mut self, subset: Subset) {
         *self.by_address_count.get_or_insert(0) += subset.count().unwrap_or(0);
         self.include_subset(subset);
@@ -123,7 +118,13 @@ impl SearchSpace {
 
     fn add_ref_matches(&mut self, utxos: HashSet<UtxoRef>) {
         *self.by_ref_count.get_or_insert(0) += utxos.len();
-        self.include_matches(utxos);
+
+        // only a referenced UTxO can be bound to the block, so nothing else is worth
+        // a slot of the selection window: the references replace the union instead
+        // of widening it
+        let refs = Subset::Specific(utxos);
+        self.intersection = Subset::intersection(self.intersection.clone(), refs.clone());
+        self.union = refs;
     }
 
     pub fn take(&self, take: Option<usize>) -> HashSet<UtxoRef> {
